@@ -174,6 +174,25 @@ func runEncodeSession(src *choice.Source, st *Stats) (fs []Finding) {
 	defer recoverTo("session", &fs)
 	n := 2 + src.Intn(3)
 	var exps []*export
+	if src.Chance(1, 3) {
+		// before the exports: a caller builds its own header from the elements the
+		// library hands out and adapts them (wider coordinates, another index type) -
+		// whatever it does to ITS header must not change what the mesh API writes
+		ve, fe := fileformats.NewPLYElementColoredVertex(2), fileformats.NewPLYElementFace(1)
+		for _, p := range ve.Properties {
+			if src.Chance(1, 2) {
+				p.ElemType = fileformats.PLYPropertyTypeDouble
+			}
+		}
+		fe.Properties[0].LenType = fileformats.PLYPropertyTypeUint
+		fe.Properties[0].Name = "vertex_indices"
+		ve.Name = "point"
+		var sink bytes.Buffer
+		if pw, err := fileformats.NewPLYWriter(&sink, &fileformats.PLYHeader{Format: fileformats.PLYFormatASCII, Elements: []*fileformats.PLYElement{ve}}); err == nil {
+			_ = pw
+		}
+		st.shape("session: custom header from library constructors")
+	}
 	for i := 0; i < n; i++ {
 		tris := genMesh(src, meshgen.AllowPlain|1<<meshgen.FlNineDigits, st)
 		if src.Chance(1, 4) {
